@@ -48,6 +48,7 @@ class E1Session(SessionBase):
         self.noise_then_scale = False
         self.did_noise = False
         self.did_mux = False
+        self.out_of_domain = False
 
     def world_summary(self):
         return worlds.summary(self.world) if self.world.get('kind') == 'net' else self.world
@@ -81,7 +82,7 @@ class E1Session(SessionBase):
 
     # ---------------------------------------------------------------------------------------------------------
     # invariants on a SpectralInformation, optionally against the model
-    def _check_si(self, si, model, when):
+    def _check_si(self, si, model, when, range_check=True):
         pch = np.array(si.pch, dtype=float)
         sig, ase, nli = np.array(si.signal), np.array(si.ase), np.array(si.nli)
         if np.any(np.abs(sig + ase + nli - pch) > 1e-12 * np.abs(pch)):
@@ -89,6 +90,8 @@ class E1Session(SessionBase):
             raise Violation('C01', 'shares-do-not-sum-to-channel-power',
                             f'{when}: channel {i}: signal+ase+nli = {sig[i] + ase[i] + nli[i]!r} pch = {pch[i]!r}')
         for name, r in (('signal', si._signal_ratio), ('ase', si._ase_ratio), ('nli', si._nli_ratio)):
+            if not range_check:
+                break
             r = np.asarray(r, dtype=float)
             if np.any(r < -1e-15) or np.any(r > 1 + 1e-15) or np.any(np.isnan(r)):
                 raise Violation('C01', 'share-outside-unit-interval', f'{when}: {name} ratio range '
@@ -274,6 +277,12 @@ class E1Session(SessionBase):
         if phase == 'pre':
             if si is None:
                 return None
+            if isinstance(el, Fiber) and float(np.max(si.pch)) > 1e-2:
+                # more than +10 dBm per channel enters a fibre: outside the domain the property states (the first-order
+                # NLI estimate may exceed the channel power there); the range clause is not judged for this propagation
+                if not self.out_of_domain:
+                    self.st.probes['propagation_left_the_+10dBm_domain'] += 1
+                self.out_of_domain = True
             return {'f': np.array(si.frequency, dtype=float), 'pch': np.array(si.pch, dtype=float),
                     'sig': np.array(si.signal, dtype=float), 'ase': np.array(si.ase, dtype=float),
                     'nli': np.array(si.nli, dtype=float)}
@@ -282,8 +291,8 @@ class E1Session(SessionBase):
         self.seen_types.add(name)
         self.st.probes[f'element_event:{name}'] += 1
         when = f'after {name} {el.uid}'
-        self._check_si(si, None, when)
-        if pre is None:
+        self._check_si(si, None, when, range_check=not self.out_of_domain)
+        if pre is None or self.out_of_domain:
             return None
         fo = np.array(si.frequency, dtype=float)
         keep = np.isin(pre['f'], fo)
@@ -369,6 +378,7 @@ class E1Session(SessionBase):
             path = deepcopy(path)
         self.seen_types = set()
         self.amp_seen = self.fiber_seen = False
+        self.out_of_domain = False
         TAP.arm(observer=self._observer)
         try:
             propagate(path, req, self.equipment)
@@ -377,6 +387,8 @@ class E1Session(SessionBase):
             return {'kind': f'refused:{type(e).__name__}'}
         finally:
             TAP.reset()
+        if self.out_of_domain:
+            return {'kind': 'left-the-domain-of-the-property'}
         # the figures every transceiver on the path *reports* (source included) obey the identity
         for trx in (path[0], path[-1]):
             if getattr(trx, 'snr', None) is None:
